@@ -371,8 +371,12 @@ class Ctx:
             'violations': len(self.violations),
             'known_findings_hit': sorted(self.known_hits),
         }
-        os.makedirs(os.path.join(VERIF, 'evidence'), exist_ok=True)
-        with open(os.path.join(VERIF, 'evidence', f'{self.prop}.json'), 'w') as f:
+        # evidence describes a run against /repo itself; a run against a scratch worktree (seeded changes: VERIF_REPO set elsewhere) must not
+        # overwrite it and keeps its record next to its scratch files
+        ev['repo'] = REPO
+        evdir = os.path.join(VERIF, 'evidence') if os.path.realpath(REPO) == '/repo' else os.path.join(VERIF, 'work', 'evidence-scratch')
+        os.makedirs(evdir, exist_ok=True)
+        with open(os.path.join(evdir, f'{self.prop}.json'), 'w') as f:
             json.dump(ev, f, indent=1, default=repr)
         shutil.rmtree(self.work, ignore_errors=True)
         self.log(f"done: evaluations={cov['evaluations']} distinct={cov['distinct_nontrivial']} "
